@@ -116,6 +116,22 @@ def exhaustive(gates, quick):
         yield prog("(declarr - int a (dims 3)) (assign (idx a (lit 0)) %s) (print (e (idx a (lit 0))))" % t(1, 2))
     if "md_index_order" not in gates:
         yield prog("(declarr - int m (dims 2 2)) (assign (idx m %s %s) (lit 7)) (print (e (idx m (lit 0) (lit 1))))" % (t(1, 0), t(2, 1)))
+    # (h) stores: target form x operation x position of the effectful index (each index exactly once, target before right side)
+    if "md_index_order" not in gates:
+        init2 = " ".join("(assign (idx m (lit %d) (lit %d)) (lit %d))" % (i, j, 10 * i + j + 1) for i in (0, 1) for j in (0, 1))
+        show2 = "(print " + " ".join("(e (idx m (lit %d) (lit %d)))" % (i, j) for i in (0, 1) for j in (0, 1)) + ")"
+        for tgt in ["(idx m %s %s)" % (t(1, 1), t(2, 0)), "(idx m %s (lit 0))" % t(1, 1), "(idx m (lit 1) %s)" % t(2, 1),
+                    "(idx m %s (var k))" % t(1, 1), "(idx m (var k) %s)" % t(2, 1), "(idx m (bin sub %s (lit 1)) (bin add (var k) %s))" % (t(1, 2), t(2, 1))]:
+            for op in ["(assign %s %s)" % (tgt, t(9, 7)), "(compound add %s %s)" % (tgt, t(9, 5)), "(compound mul %s (lit 3))" % tgt,
+                       "(compound sub %s (var k))" % tgt, "(expr (incdec post inc %s))" % tgt, "(expr (incdec pre dec %s))" % tgt]:
+                if "incdec" in op and "md_elem_incdec" in gates:
+                    continue      # ++ / -- on an element of a multi-dimensional array is rejected (listed finding)
+                yield prog("(declarr - int m (dims 2 2)) (decl - int k (lit 0)) %s %s %s" % (init2, op, show2))
+    show1 = "(print (e (idx a (lit 0))) (e (idx a (lit 1))) (e (idx a (lit 2))))"
+    for tgt in ["(idx a %s)" % t(1, 1), "(idx a (bin add %s %s))" % (t(1, 1), t(2, 1)), "(idx a (bin sub %s (var k)))" % t(1, 2)]:
+        for op in ["(assign %s %s)" % (tgt, t(9, 7)), "(compound add %s %s)" % (tgt, t(9, 5)), "(compound shl %s (lit 2))" % tgt,
+                   "(expr (incdec post inc %s))" % tgt, "(expr (incdec pre dec %s))" % tgt]:
+            yield prog("(declarr - int a (dims 3) (init (lit 4) (lit 5) (lit 6))) (decl - int k (lit 0)) %s %s" % (op, show1))
     # (g) guards
     for d in (0, 1, -1, 3):
         for n in (0, 5, -9):
